@@ -51,8 +51,10 @@ def model_vs_real(chk: core.Check, n_cases: int):
         # every event is a (jagged) list holding its own index, so ListOffsetArray concatenation is exercised too
         empty = ak.Array([[0]])[:0]
         arrays = {i: (ak.Array([[int(e)] * (int(e) % 3) + [int(e)] for e in range(offs[i], offs[i + 1])]) if sizes[i] else empty) for i in range(len(sizes))}
-        keys = list(arrays)
-        rng.shuffle(keys)                    # baskets may be delivered in any order
+        # uproot hands over only the baskets that overlap the requested interval, in any order
+        ov = [i for i in arrays if offs[i] < b and offs[i + 1] > a]
+        keys = list(range(min(ov), max(ov) + 1)) if rng.random() < 0.7 else list(arrays)    # contiguous run incl. empty baskets in between
+        rng.shuffle(keys)
         ba = {k: arrays[k] for k in keys}
         want = [[e] * (e % 3) + [e] for e in range(a, b)]
         chk.count(1, key=f"{sizes}-{a}-{b}")
@@ -144,7 +146,9 @@ def real_bytes(chk: core.Check, thorough: bool):
                         return
                     ivs = list(itertools.combinations(range(n + 1), 2)) if thorough else [tuple(sorted(rng.choice(n + 1, size=2, replace=False).tolist())) for _ in range(6)] + [(0, n), (n - 1, n)]
                     for a, b in ivs:
-                        keys = list(pieces); rng.shuffle(keys)
+                        ov = [i for i in pieces if bounds[i] < b and bounds[i + 1] > a]
+                        keys = list(range(min(ov), max(ov) + 1)) if rng.random() < 0.7 else list(pieces)
+                        rng.shuffle(keys)
                         try:
                             got = interp.final_array({k: pieces[k] for k in keys}, int(a), int(b), bounds, lib, br, {})
                             ok = got.tolist() == full[a:b].tolist() and got.fields == full.fields
